@@ -24,7 +24,7 @@ RULE = (
 )
 ASSUMPTIONS = c05.ASSUMPTIONS
 TRUSTED = []
-NOT_THEOREMS = ['record-level premise of Props.C06.main (every typed record parsed from x renders and is record-stable: C01 stability) — a theorem from the per-field laws (Props.C06.recStable_of_laws; laws proved for integers, literals, missing values), per case for float and date fields']
+NOT_THEOREMS = ['record-level premise of Props.C06.main (every typed record parsed from x renders and is record-stable: C01 stability) — discharged for every text in Props.C06.main_int_lit (files of integer / literal registers) and derivable from the per-field laws in general (recStable_of_laws); per case for records with float or date fields']
 EXHAUSTIVE = {"quick": False, "thorough": False}
 
 
